@@ -798,6 +798,17 @@ func ruleRecGuard(c *eng.Ctx) {
 			c.Ok(R, key, pos, "unlisted cycle with a structural guard: "+how)
 			continue
 		}
+		// a depth counter kept in a field of the receiver (tested against a limit, stepped around the recursive call)
+		fieldDepth := ""
+		for _, f := range scc {
+			if hasDepthGuard(f, "Depth", scc...) || hasDepthGuard(f, "depth", scc...) {
+				fieldDepth = eng.FuncName(f)
+			}
+		}
+		if fieldDepth != "" {
+			c.Ok(R, key, pos, "unlisted cycle with a depth counter in a field, tested in "+fieldDepth)
+			continue
+		}
 		if genericTreeRecursion(scc) {
 			c.Ok(R, key, pos, "unlisted cycle that descends an in-memory structure: every recursive call passes a part (field, element) of its own parameter and no member follows file references")
 			continue
